@@ -4,6 +4,7 @@ import (
 	"errors"
 	"io"
 	"math"
+	"math/big"
 	"regexp"
 	"strconv"
 	"strings"
@@ -501,7 +502,7 @@ func parseInt(s string, base int) (Value, error) {
 	for ; i < len(s); i++ {
 		if n >= cutoff {
 			// n*base overflows
-			return parseLargeInt(float64(n), s[i:], base, sign)
+			return parseLargeInt(s, base, sign)
 		}
 		v := digitVal(s[i])
 		if v >= base {
@@ -512,7 +513,7 @@ func parseInt(s string, base int) (Value, error) {
 		n1 := n + int64(v)
 		if n1 < n || n1 > maxVal {
 			// n+v overflows
-			return parseLargeInt(float64(n)+float64(v), s[i+1:], base, sign)
+			return parseLargeInt(s, base, sign)
 		}
 		n = n1
 	}
@@ -534,21 +535,23 @@ Error:
 	return _NaN, err
 }
 
-func parseLargeInt(n float64, s string, base int, sign bool) (Value, error) {
+// parseLargeInt converts a digit run whose value does not fit int64. The exact value is built first and
+// rounded to a float64 once; accumulating in float64 would round at every digit.
+func parseLargeInt(s string, base int, sign bool) (Value, error) {
 	i := 0
-	b := float64(base)
-	for ; i < len(s); i++ {
-		v := digitVal(s[i])
-		if v >= base {
-			break
-		}
-		n = n*b + float64(v)
+	for i < len(s) && digitVal(s[i]) < base {
+		i++
 	}
+	n, ok := new(big.Int).SetString(s[:i], base)
+	if !ok {
+		return _NaN, strconv.ErrSyntax
+	}
+	f, _ := new(big.Float).SetInt(n).Float64()
 	if sign {
-		n = -n
+		f = -f
 	}
 	// We know it can't be represented as int, so use valueFloat instead of floatToValue
-	return valueFloat(n), nil
+	return valueFloat(f), nil
 }
 
 var (
